@@ -87,7 +87,7 @@ def _c02_klass(case):
     if op in ("nll_loss", "cross_entropy"):
         if case["form"] == "module":
             return "reduction=%s" % case["reduction"]
-        return "functional (N,1) output"
+        return "functional per-row output"
     aff = {(True, True): "weight+bias", (True, False): "weight", (False, True): "bias", (False, False): "none"}[
         (case.get("weight") is not None, case.get("bias") is not None)]
     return "training=%s affine=%s running=%s rank=%d" % (
@@ -796,7 +796,10 @@ def _c09_judge(impl, case):
             x = sg.Tensor(x_np.copy(), requires_grad=True)
             y = sg.Tensor(np.array(labels, dtype=np.int64))
             out = nn.CrossEntropyLoss(reduction=red)(x, y) if form == "module" else NF.cross_entropy(x, y)
-            out_l = np.asarray(out.data, dtype=np.float64).tolist()
+            out_a = np.asarray(out.data, dtype=np.float64)
+            if eff == "none" and out_a.size == N:
+                out_a = out_a.reshape(N, 1)      # per-row losses: (N,) or (N,1) -- the layout is C06's business, the values are judged here
+            out_l = out_a.tolist()
     except Exception as e:
         info["rejected"] += 1
         info["note"] = _short(e)
